@@ -1,2 +1,3 @@
 //! Independent oracles (never call into riti's private logic).
 pub mod layout;
+pub mod phon;
